@@ -476,6 +476,10 @@ func TestVerifC18Child(t *testing.T) {
 		c18Snapshot(rep, spec.Unit, spec.Run, spec.Seed, spec.Variant, spec.Trailing, spec.Bulk)
 	case "cluster":
 		c18Cluster(rep, spec.Run, spec.Seed)
+	case "backlog":
+		c18Backlog(rep, spec.Run, spec.Seed, spec.Variant, spec.Bulk)
+	case "regain":
+		c18Regain(rep, spec.Run, spec.Seed, spec.Variant)
 	default:
 		t.Fatalf("unknown unit %q", spec.Unit)
 	}
